@@ -193,9 +193,34 @@ def gen_specs(writer, tier):
     return out
 
 
+_SHARED = {}
+SHARED_WFN_TARGETS = ["molden", "fchk", "molekel", "wfn", "wfx", "xyz", "molden"]
+SHARED_MOL_TARGETS = ["xyz", "pdb", "mol2", "sdf", "json_qcschema", "xyz"]
+
+
+def shared_object(j):
+    """Object number j of the shared pool: built once per interpreter and handed to every dump that names it, the way a script
+    converts one loaded object to several formats.  0..3: wavefunctions whose shells are NOT grouped by atom; 4, 5: molecules."""
+    if j not in _SHARED:
+        rng = gb.rng_for(16, 13, j)
+        if j < 4:
+            from ..gen import wfnobjects as wo
+
+            _SHARED[j], _ = wo.make(rng, "wfn", nbasis_max=16, lmax=1, spin=["restricted", "unrestricted", "rohf", "restricted"][j],
+                                    shell_order="shuffled", contraction="segmented", ghosts="none", natom=3 + j % 2)
+        else:
+            _SHARED[j], _ = go.make(["sdf", "mol2"][j - 4], rng, "medium")
+    return _SHARED[j]
+
+
 def dump_specs(fmt, tier):
     """Call specs dumping generated objects of every class of one format (plus wavefunction objects needing conversion)."""
     out = []
+    if fmt == "shared":
+        for j in range(6):
+            for t, target in enumerate(SHARED_WFN_TARGETS if j < 4 else SHARED_MOL_TARGETS):
+                out.append({"op": "dump_gen", "fmt": target, "klass": f"shared:{j}:{t}", "k": j, "allow": True, "shared": j})
+        return out
     for klass in ("small", "medium", "wide"):
         for k in range(2 if tier == "quick" else 4):
             out.append({"op": "dump_gen", "fmt": fmt, "klass": klass, "k": k, "allow": False})
@@ -210,7 +235,9 @@ def execute_dump(spec, workdir):
 
     fmt = spec["fmt"]
     rng = gb.rng_for(16, 11, spec["k"], sum(map(ord, fmt + spec["klass"])))
-    if spec["klass"].startswith("wfn:"):
+    if "shared" in spec:
+        data = shared_object(spec["shared"])
+    elif spec["klass"].startswith("wfn:"):
         from ..gen import wfnobjects as wo
 
         data, _ = wo.make(rng, fmt, nbasis_max=14, spin=spec["klass"][4:], ghosts="none" if fmt == "molekel" else None)
@@ -459,6 +486,8 @@ def plan(tier, seed):
         cases.append({"kind": "format_history", "writer": name, "seed": seed, "tier": tier})
     for fmt in go.DUMP_FORMATS:
         cases.append({"kind": "format_history", "writer": "dump:" + fmt, "seed": seed, "tier": tier})
+    # one object converted to several formats in one interpreter (shuffled, repeated) against each dump alone in a fresh interpreter
+    cases.append({"kind": "format_history", "writer": "dump:shared", "seed": seed, "tier": tier})
     nparts = 8
     for part in range(nparts):
         cases.append({"kind": "failure_history", "part": part, "nparts": nparts})
